@@ -657,7 +657,36 @@ func (m *Machine) step(v ssa.Value, fr *frame) Value {
 		switch x := m.eval(in.X, fr).(type) {
 		case *MapObj:
 			it := &rangeIter{m: x}
-			if x != nil && len(x.keys) > 1 {
+			if x != nil && len(x.keys) > 4 {
+				// large maps: all n! orders are out of reach; three representative orders are explored
+				// (insertion order, reverse, evens-then-odds) -- a stated bound of the map-iteration model
+				n := len(x.keys)
+				var p uint64
+				if v, ok := m.nextDecision(); ok {
+					p = v
+				} else {
+					p = m.newDecision([]uint64{0, 1, 2})
+				}
+				perm := make([]int, 0, n)
+				switch p {
+				case 0:
+					for i := 0; i < n; i++ {
+						perm = append(perm, i)
+					}
+				case 1:
+					for i := n - 1; i >= 0; i-- {
+						perm = append(perm, i)
+					}
+				default:
+					for i := 0; i < n; i += 2 {
+						perm = append(perm, i)
+					}
+					for i := 1; i < n; i += 2 {
+						perm = append(perm, i)
+					}
+				}
+				it.perm = perm
+			} else if x != nil && len(x.keys) > 1 {
 				// iteration order is unspecified: explore every permutation
 				n := len(x.keys)
 				f := 1
